@@ -35,11 +35,12 @@ def parse_off_data(data):
     # remove empty lines from data
     data = deque([x for x in data if x])
 
-    header = data.popleft()[0]
-    if (header != "OFF"): # file always starts with OFF
+    header = data.popleft()
+    if (header[0] != "OFF"): # file always starts with OFF
         raise Exception("Import OFF file : OFF header missing.")
 
-    nv,nf,ne = (int(u) for u in data.popleft())
+    # the three counts follow the keyword, either on the same line or on the next one
+    nv,nf,ne = (int(u) for u in (header[1:] if len(header)>1 else data.popleft()))
 
     for _ in range(nv):
         vertex = [float(u) for u in data.popleft()]
